@@ -3,7 +3,7 @@
 From Verif Require Import Base.Tactics Base.ZList Base.Val.
 From Verif Require Import Base.Str.
 From Verif Require Import Model.BufReaderModel Model.RangeModel Model.IsoTimeModel Model.TimingModel Model.SegModel.
-From Verif Require Import Base.Bits Model.CrcModel Model.EventsModel Model.Scte35Model Model.MpsModel Model.AuthModel Model.OptionsModel.
+From Verif Require Import Base.Bits Model.CrcModel Model.EventsModel Model.Scte35Model Model.MpsModel Model.AuthModel Model.OptionsModel Model.BoxModel.
 
 (* ---- C20 ---- request: (file off bs maxb (size?) mode ops) *)
 Definition c20_op (v : val) : op :=
@@ -268,8 +268,32 @@ Definition c07_run (v : val) : val :=
   else
     match OptionsModel.parse k (qdecode (vints (vnth 2 v))) with Some x => VL [c07_value_out x] | None => VL [] end.
 
+(* ---- C04 / C10 ---- request: (mode ...) *)
+Fixpoint c04_tree (b : box) : val :=
+  match b with
+  | Leaf t p => VL [VI 0; of_ints t; of_ints p]
+  | Node t cs => VL [VI 1; of_ints t; VL (map c04_tree cs)]
+  end.
+Definition c04_leaves (l : list val) : list box :=
+  flat_map (fun v => match BoxModel.parse (S (length (vints v))) (vints v) with Some bs => bs | None => [] end) l.
+Definition c04_run (v : val) : val :=
+  let mode := vint (vnth 0 v) in
+  let bs := vints (vnth 1 v) in
+  if mode =? 0 then
+    match BoxModel.parse (S (length bs)) bs with Some l => VL [VL (map c04_tree l)] | None => VL [] end
+  else if mode =? 1 then
+    match BoxModel.parse (S (length bs)) bs with Some l => VL [of_ints (enc_list l)] | None => VL [] end
+  else if mode =? 2 then
+    let top := vints (vnth 3 v) in
+    match BoxModel.parse (S (length top)) top with
+    | Some l => VL [of_ints (enc_list (rewrite_init (0 <? vint (vnth 1 v)) (c04_leaves (vlist (vnth 2 v))) l))]
+    | None => VL []
+    end
+  else verr 995.
+
 Definition dispatch (comp : Z) (v : val) : val :=
   if comp =? 20 then c20_run v
+  else if comp =? 4 then c04_run v
   else if comp =? 7 then c07_run v
   else if comp =? 15 then c15_run v
   else if comp =? 12 then c12_run v
